@@ -783,7 +783,16 @@ impl Kanata {
         self.check_handle_layer_change(tx);
 
         if self.live_reload_requested
-            && ((self.prev_keys.is_empty() && self.cur_keys.is_empty())
+            && ((self.prev_keys.is_empty()
+                && self.cur_keys.is_empty()
+                // A held custom action (mouse button, wheel, mouse movement, ...) is like a held
+                // key: the old layout must see its release so that it is undone.
+                && !self
+                    .layout
+                    .b()
+                    .states
+                    .iter()
+                    .any(|s| matches!(s, State::Custom { .. })))
                 || self.ticks_since_idle > 1000)
         {
             // Note regarding the ticks_since_idle check above:
